@@ -9,6 +9,11 @@
   race cases : the same harness built with `go build -race` (CGO_ENABLED=1) is the SEARCH for a data-race
                witness in concurrent ast.Parse / Store.GetSymbol / Is*Error helpers / parse+query under a
                writer; a race-detector report is the replay.  A clean race run proves nothing.
+  cr cases   : all transactions committed first, then 3-6 readers released together hammer 2-6 query kinds (external symbols,
+               empty filter + per-reader paging on the parsed query, set symbols ...); the serial baseline, the first read
+               transactions and every read transaction deviating from the baseline are judged by the Lean driver as above
+  tables     : Generated/Globals.lean also lists, per package-level variable, type / mutable / the functions handing it out,
+               and every escaping function literal with the captured variables it writes: `no_shared_mutable_escape`
   probe      : one compiled ast.Query shared by goroutines (setPaging stores default skip/limit nodes in it) —
                outside the property's wording, reported in the evidence, never a violation.
 """
@@ -21,9 +26,13 @@ from . import common
 
 MODULE = "StorageModel.Properties.C18"
 THEOREMS = ["read_sees_one_version", "one_version_per_read_tx", "all_or_nothing_visibility", "abort_invisible",
-            "model_logs_pass_check", "no_unsynchronised_global_writes", "global_table_anchors"]
+            "model_logs_pass_check", "paged_query_is_page_of_all",
+            "no_unsynchronised_global_writes", "global_table_anchors",
+            "no_shared_mutable_escape", "shared_escape_meaning", "escape_table_anchors"]
 TABLE_OBLIGATIONS = ["no_unsynchronised_global_writes (Generated/Globals.lean, regenerated from the package-level vars of zitiql/ast/boltz/objectz)",
-                     "global_table_anchors (same table)"]
+                     "global_table_anchors (same table)",
+                     "no_shared_mutable_escape (same file: escapes of mutable package-level variables + captured writes of escaping function literals)",
+                     "escape_table_anchors (same tables)"]
 
 RULE = ("mv: seeded random writer histories of 4..17 (quick) / 4..27 (thorough) transactions, each 1-4 operations "
         "(create-or-update of name/rank/roles, delete, SetLinks) over 6 things x 3 groups, 1 in 6 aborted; 2-5 reader "
@@ -32,7 +41,15 @@ RULE = ("mv: seeded random writer histories of 4..17 (quick) / 4..27 (thorough) 
         "unique-index read, set-index read, links from both sides, FindById}, version tag again; the first read "
         "transaction of every version a reader met is recorded. non-trivial = recorded read transaction whose tag is "
         "neither 0 nor the final version (it ran while the writer was in the middle of its history) and has a non-empty "
-        "answer; distinct = (case, reader, tag). race: 4 scenarios x 6 goroutines under the race detector")
+        "answer; distinct = (case, reader, tag). Round 2 observation kinds (in mv, cr and the race scenarios): QueryIds on the "
+        "empty filter; ast.Parse of \"\" / rank >= n followed by the reader's own SetSkip / SetLimit and QueryIdsC; filters on the "
+        "externally computed symbols even (NewBoolFuncSymbol) and ext (NewStringFuncSymbol); two outstanding Eval results of an "
+        "external symbol decoded after both evaluations. cr: 16-40 rows (ids 10..) created and then changed by 2-6 random "
+        "transactions, all committed first; serial baseline of every query of the case's 2-6 focus kinds; then 3-6 reader "
+        "goroutines released together run 150 (quick) / 500 (thorough) read transactions of 5 random such queries; recorded = "
+        "baseline + first 2 per reader + every read transaction deviating from the baseline (<= 3 per reader); non-trivial = "
+        "a recorded concurrent read transaction with a non-empty answer; distinct = (case, reader, n). "
+        "race: 6 scenarios x 6 goroutines under the race detector + 2 mv + 4 cr cases")
 
 MATCHERS = {}
 
@@ -139,6 +156,12 @@ def nontrivial_keys(case, impl):
         return set()
     final = f[0][1:]
     keys = set()
+    if case.startswith("cr "):
+        for tok in f[1:]:
+            p = tok.split(":")
+            if len(p) == 4 and not p[0].startswith("s.") and any(not r.endswith("=-") for r in p[3].split("|")):
+                keys.add((case, p[0], p[1]))
+        return keys
     for tok in f[1:]:
         p = tok.split(":")
         if len(p) != 4:
@@ -152,9 +175,11 @@ def histogram(lines, impl):
     h = collections.Counter()
     for l, a in zip(lines, impl):
         f = l.split(" ")
-        if f[0] == "mv":
-            h["readers=" + f[1]] += 1
-            for t in f[4:]:
+        if f[0] in ("mv", "cr"):
+            h[f[0] + " readers=" + f[1]] += 1
+            if f[0] == "cr":
+                h["cr focus=" + f[4]] += 1
+            for t in (f[4:] if f[0] == "mv" else f[5:]):
                 h["tx:" + ("commit" if t[0] == "c" else "abort")] += 1
                 for op in t[2:].split("/"):
                     if op:
@@ -174,12 +199,14 @@ def run(ctx, replay_cases=None):
     ctx.assumptions += [
         "bbolt read transactions are MVCC snapshots of the newest committed state at Begin, a write transaction's changes become visible atomically at commit and never on rollback (this IS the Mvcc model; it is assumed of bbolt and exercised by every mv case)",
         "absence of data races is a property of the Go memory model and the scheduler: it is not proved; the table obligation sees only assignments / element writes / address-taking of package-level variables in function bodies of the four packages (not writes through aliases created elsewhere, not library internals such as the ANTLR runtime's shared DFA caches or strings.Replacer), and the race detector sees only the schedules that happened",
-        "one compiled ast.Query value is not shared between goroutines (setPaging writes default skip/limit into it; examined as a probe, outside the property's wording)",
+        "one compiled ast.Query value obtained by ONE ast.Parse call is not shared between goroutines by the caller (setPaging writes default skip/limit into it; examined as a probe, outside the property's wording); two separate Parse calls returning the same object is a defect and is searched for (observation kinds A/P/Q, no_shared_mutable_escape)",
+        "the escape / closure tables are syntactic (go/parser): aliases are followed inside one function only, function literals passed as call arguments are not listed, types of other modules are opaque",
     ]
     with common.Lock():
         common.build_tools(ctx)
         built = common.prove(ctx, MODULE, THEOREMS, TABLE_OBLIGATIONS)
         ctx.offenders = _offenders()   # read under the lock: the facts directory is shared between runs
+        ctx.escape_offenders = _escape_offenders()
     trusted = common.BASE_TRUST + ["bbolt's MVCC (modelled by C18/Mvcc.lean, see assumptions)",
                                    "the Go race detector as a search tool (never as a proof)"]
     if not (ctx.harness_ok and ctx.driver_ok):
@@ -196,7 +223,7 @@ def run(ctx, replay_cases=None):
         lines = replay_cases
     else:
         lines = common.corpus_cases("c18") + [l for l in common.gen_cases(ctx, "c18").split("\n") if l]
-    mv_lines = [l for l in lines if l.startswith("mv ")]
+    mv_lines = [l for l in lines if l.startswith("mv ") or l.startswith("cr ")]
     race_lines = [l for l in lines if l.startswith("race ")]
 
     # ---- isolation: reader logs against the model on the tagged version
@@ -225,9 +252,13 @@ def run(ctx, replay_cases=None):
     race_out = []
     probe = None
     if race_bin is not None:
-        extra = mv_lines[:2] if replay_cases is None else []
-        for j, case in enumerate(race_lines + extra):
-            out, reps = race_run(ctx, race_bin, case, f"c{j}")
+        extra = ([l for l in mv_lines if l.startswith("mv ")][:2] + [l for l in mv_lines if l.startswith("cr ")][:4]) if replay_cases is None else []
+        # one process per case; three at a time (each has 4-6 busy goroutines)
+        from concurrent.futures import ThreadPoolExecutor
+        todo = list(enumerate(race_lines + extra))
+        with ThreadPoolExecutor(max_workers=3) as pool:
+            results = list(pool.map(lambda jc: race_run(ctx, race_bin, jc[1], f"c{jc[0]}"), todo))
+        for (j, case), (out, reps) in zip(todo, results):
             race_out.append((case, out[:80]))
             if ctx.replay_mode:
                 print(json.dumps({"case": case, "impl": out[:200], "race_reports": reps}, indent=1), flush=True)
@@ -242,7 +273,7 @@ def run(ctx, replay_cases=None):
             probe = {"case": pcase, "race_reports": len(reps),
                      "first_report": reps[0] if reps else None,
                      "verdict": "outside the property's wording (a compiled ast.Query is a mutable object: setPaging stores default skip/limit nodes in it); reported, not counted"}
-    ctx.obligation("race search: no data-race report in concurrent ast.Parse / Store.GetSymbol / Is*Error helpers / parse+query under a writer (race detector; search only)",
+    ctx.obligation("race search: no data-race report in concurrent ast.Parse / Store.GetSymbol / Is*Error helpers / parse+query under a writer / external-symbol filters / empty filter with per-reader paging (race detector; search only)",
                    not reports, f"{len(reports)} report(s)")
 
     ctx.coverage.update({
@@ -264,18 +295,19 @@ def run(ctx, replay_cases=None):
         i = min(bad, key=lambda j: (len(mv_lines[j]), mv_lines[j]))
         common.violation(ctx, "property-fails-on-input", mv_lines[i],
                          {"case": mv_lines[i], "impl": impl[i][:3000], "model": model[i], "spec": spec[i],
-                          "meaning": "a read transaction's observations are not the model's answers on the committed version it was tagged with (or the tag moved inside the transaction)",
+                          "meaning": "a read transaction's observations are not the model's answers on the committed version it was tagged with (or the tag moved inside the transaction); the spec field names the read transaction <reader>.<n> (s.0 = the serial baseline of a cr case) and the first differing observation",
+                          "offending_escapes": getattr(ctx, "escape_offenders", None),
                           "failing_cases": len(bad)})
     if reports:
         case, rep = reports[0]
         common.violation(ctx, "data-race", case,
                          {"case": case, "race_detector_report": rep, "reports": len(reports),
-                          "offending_globals": ctx.offenders,
+                          "offending_globals": ctx.offenders, "offending_escapes": getattr(ctx, "escape_offenders", None),
                           "how_to_replay": "bin/check C18 --replay <this file> rebuilds the harness with -race and re-runs the case"})
     elif not bad and (not built or ctx.broken):
         common.violation(ctx, "obligation-broken", None,
                          {"reason": "a proof obligation no longer checks (theorem or regenerated globals table); neither the isolation runs nor the race search produced a failing input",
-                          "broken": ctx.broken, "offending_globals": ctx.offenders,
+                          "broken": ctx.broken, "offending_globals": ctx.offenders, "offending_escapes": getattr(ctx, "escape_offenders", None),
                           "lean_errors": [l for l in getattr(ctx, "lean_log", "").splitlines() if "error" in l][:10]},
                          no_input=True)
     return common.finish(ctx, trusted_base=trusted,
@@ -296,4 +328,23 @@ def _offenders():
         if ws:
             res.append({"var": g["pkg"] + "." + g["name"], "decl": g["decl"],
                         "writes": [f'{w["func"]} ({w["how"]}) at {w["pos"]}' for w in ws]})
+    return res
+
+
+def _escape_offenders():
+    """entries of the regenerated tables that break no_shared_mutable_escape (same rule as GlobalVar.noSharedEscape / Closure.ok)"""
+    try:
+        facts = json.load(open(os.path.join(common.FACTS, "globals.json")))
+    except (OSError, ValueError):
+        return None
+    res = []
+    for g in facts.get("globals", []):
+        if g["kind"] == "plain" and g.get("mutable") and g.get("escapes"):
+            res.append({"var": g["pkg"] + "." + g["name"], "decl": g["decl"], "type": g.get("type"), "mutable_because": g.get("mutableWhy"),
+                        "handed_out_by": [f'{e["func"]} ({e["how"]}) at {e["pos"]}' for e in g["escapes"]]})
+    for c in facts.get("closures", []):
+        ws = [w for w in (c.get("writes") or []) if not w["underLock"]]
+        if ws:
+            res.append({"closure_in": c["pkg"] + "." + c["func"], "at": c["pos"], "escape": c["escape"],
+                        "writes_captured": [f'{w["var"]} ({w["decl"]}, {w["how"]}) at {w["pos"]}' for w in ws]})
     return res
